@@ -173,6 +173,11 @@ def run(rng, tier, res=None):
             [rng.choice([rng.randint(0, 2 ** 31 - 1), 2 ** 24 + 1 + rng.randint(0, 1000), 123456789, rng.randint(0, 99)]) for _ in range(n)]
         feats = [[struct.unpack("<f", struct.pack("<f", rng.choice([rng.gauss(0, 10), rng.uniform(-1e-3, 1e-3), float(rng.randint(-5, 5)), 1e10 * rng.random()])))[0]
                   for _ in range(d)] for _ in range(n)]
+        nonfin = rng.random() < 0.15
+        if nonfin:
+            # a stored feature may be an IEEE infinity (a saturated sensor value, a log of 0): data, not an error
+            feats[rng.randrange(n)][rng.randrange(d)] = rng.choice([float("inf"), float("-inf")])
+            res.hit("convert_infinite_feature")
         Kh = K
         if rng.random() < 0.3:
             Kh = K + rng.choice([1, 2])        # a subset file keeps the whole data set's class count in its header
@@ -210,6 +215,8 @@ def run(rng, tier, res=None):
         if len({json.dumps(o[:3]) for o in outs.values()}) != 1:
             msgs.append("the three formats yield different data")
         viol(msgs, meta)
+        if nonfin:
+            continue            # oracle only: the model line is for finite data
         line = f"decode {len(raw)} {ints(raw)}"
         o = outs["txt"]
         ob = " , ".join(f"{o[0][i]} {o[1][i]} {' '.join(str(v) for v in o[2][i])}" for i in range(n))
